@@ -80,6 +80,30 @@ def _guarded(p):
     return False
 
 
+def _root_name(e):
+    while isinstance(e, (ast.Attribute, ast.Subscript, ast.Call)):
+        e = e.value if not isinstance(e, ast.Call) else e.func
+    return e.id if isinstance(e, ast.Name) else None
+
+
+def _decision_subjects(p):
+    """root names of the arguments of the are_co_aligned(...) calls that decide this path"""
+    out = []
+    tests = [t for t, pol in flow.facts(p)]
+    for st in p.preceding:
+        for sub in ast.walk(st):
+            if isinstance(sub, ast.If) and flow.terminates(sub.body):
+                tests.append(sub.test)
+    for t in tests:
+        for c in ast.walk(t):
+            if isinstance(c, ast.Call) and (dotted(c.func) or "").endswith("are_co_aligned"):
+                roots = {r for r in (_root_name(a) for a in c.args if not isinstance(a, ast.Starred)) if r}
+                if any(isinstance(a, ast.Starred) for a in c.args):
+                    roots.add("*")
+                out.append(roots)
+    return [r for r in out if "*" not in r]
+
+
 @rule(
     "R02a",
     ["C02"],
@@ -115,7 +139,13 @@ def r02a(ctx):
             cid = f"{fq}->{name}"
             p = flow.point_of(fn, call)
             if p is not None and _guarded(p):
-                ctx.ok(cid, mod.loc(call), "dominated by an alignment decision")
+                # the decision must be about the frame that is built upon: are_co_aligned(x.expr, ...) with x the first operand
+                subj = _decision_subjects(p)
+                root = _root_name(call.args[0]) if call.args else None
+                if subj and root is not None and root != "self" and not any(root in s_ for s_ in subj) and any("self" in s_ or s_ for s_ in subj):
+                    ctx.bad(cid, mod.loc(call), f"{name} is built on `{root}` but the alignment decision on this path looked at {sorted(set().union(*subj))}: inside a loop that keeps extending `{root}` the frame that was tested is not the frame the operation is applied to")
+                else:
+                    ctx.ok(cid, mod.loc(call), "dominated by an alignment decision")
             elif (fq, name) in R02A_EXCEPTIONS:
                 ctx.exempt(cid, mod.loc(call), R02A_EXCEPTIONS[(fq, name)])
             elif _only_literal_operands(call):
